@@ -24,12 +24,19 @@ func randomScenario(rng *rand.Rand, id int) Scenario {
 		TolUs:     1_000_000,
 		TickUs:    50_000,
 		SdCtx:     pick(rng, []string{"bg", "expired"}),
-		Compress:  rng.Intn(100) < 30,
-		Items:     []Item{},
+		X: XCfg{Headers: pick(rng, []int{0, 1, 3}), Gzip: rng.Intn(100) < 35, Env: rng.Intn(100) < 35,
+			Timeout: pick(rng, []string{"default", "explicit"})},
+		Items: []Item{},
 	}
 	withTmp := http && rng.Intn(100) < 8
 	if withTmp {
 		sc.AttoUs = 400_000
+	}
+	// gRPC: a collector that never answers, bounded by a small explicit export timeout (whole call)
+	withHung := !http && rng.Intn(100) < 8
+	if withHung {
+		sc.CtoUs = 300_000
+		sc.MaxElUs = 0
 	}
 	withRetryAfter := http && rng.Intn(100) < 12 // whole seconds: few of them
 	length := 1 + rng.Intn(7)
@@ -86,9 +93,15 @@ func randomScenario(rng *rand.Rand, id int) Scenario {
 			if it.Code == 0 && rng.Intn(100) < 40 {
 				it.Partial = true
 			}
+			if withHung && (last || rng.Intn(100) < 25) {
+				it = Item{Kind: "hung"}
+			}
 		}
 		if it.Kind == "status" && rng.Intn(100) < 12 {
 			it.SlowUs = int64(1000 + rng.Intn(30_000))
+		}
+		if withHung && it.ThrUs > 20_000 {
+			it.ThrUs = 20_000 // keep the script inside the small call timeout
 		}
 		if i == stopAt {
 			if rng.Intn(2) == 0 {
@@ -98,7 +111,7 @@ func randomScenario(rng *rand.Rand, id int) Scenario {
 			}
 		}
 		sc.Items = append(sc.Items, it)
-		if it.Kind == "hold" {
+		if it.Kind == "hold" || it.Kind == "hung" {
 			break
 		}
 	}
